@@ -51,7 +51,20 @@ def gen_c12(rng):
     hist.append(mm)
     hist += fill_steps(rng, mm, 50, rng.randint(1, 2), none_ok=False)
     cur = 0
-    bound = 20          # magnitude bound of the stored values: fixed-width wrap-around is not modelled
+    # magnitude bound of the stored values (fixed-width wrap-around and out-of-range float->int conversion
+    # are not modelled: NumPy leaves the latter undefined): the sum over the fill steps of the largest
+    # magnitude written (a value may be the sentinel, and 'add' accumulates over repeated pixels and steps)
+    bound = 20
+    if mk['kind'] == 'plain':
+        tot = 0
+        for st0 in hist:
+            if st0.get('op') != 'upd' or st0.get('h') != 0 or st0.get('values') is None:
+                continue
+            vs = st0['values'] if isinstance(st0['values'], list) else [st0['values']]
+            mag = max([abs(float(v)) for v in vs if isinstance(v, (int, float)) and not isinstance(v, bool)] or [0.0])
+            mult = max([st0['pixels'].count(p) for p in set(st0['pixels'])] or [1])
+            tot += mag * mult
+        bound = max(bound, int(tot) + 1)
     cur_dt = mk.get('dtype')
 
     def fits(b, dt):
@@ -624,7 +637,9 @@ def gen_c02(rng):
             ops = legal_ops(mk)
             op = rng.choice(ops)
             st = dict(op='rng', h=0, operation=op, thr=rng.choice([0, 0, None]))
-            st['ranges'] = rand_ranges(rng, cfg, overlapping=True)
+            # 'add' over OVERLAPPING ranges on a map with a custom non-zero sentinel is known finding F36 of C08
+            # (an intermediate sum equal to the sentinel is re-zeroed): not this property's concern
+            st['ranges'] = rand_ranges(rng, cfg, overlapping=not (op == 'add' and mk.get('sentinel') not in (None, 0, 0.0)))
             if mk['kind'] == 'rec':
                 st['value'] = None
                 st['operation'] = 'replace'
